@@ -122,7 +122,16 @@ func oExcluded(rules []oRule, path string) bool {
 // ---- generators ----
 
 var patAtoms = []string{"foo", "bar", "a", "b", ".git", ".terraform", "modules", "*.tf", "f?o", "*", "**", "a+b", "x(1)", "c$", "é", "fo o", "b*r", "?", "^a", "a|b", "{a}", "ba.", "*a*"}
-var pathSegsIgn = []string{"foo", "bar", "a", "b", ".git", ".terraform", "modules", "x.tf", "fao", "a+b", "aab", "x(1)", "c$", "é", "fo o", "a\nb", "^a", "a|b", "{a}", "bar.", "baz", "bax"}
+var pathSegsIgn = []string{"foo", "bar", "a", "b", ".git", ".terraform", "modules", "x.tf", "fao", "a+b", "aab", "x(1)", "c$", "é", "fo o", "a\nb", "^a", "a|b", "{a}", "bar.", "baz", "bax",
+	// a backslash in a PATH is an ordinary character of its segment (seed C03-g: turned into '/' before
+	// matching): inner, leading, trailing, several, next to what '*' and '?' have to cover
+	`foo\bar`, `a\b`, `\a`, `foo\`, `a\b\x.tf`, `.git\foo`}
+
+// rule files whose verdict depends on where a segment ends (anchoring, a directory rule, '*' and '?'
+// confined to one segment), each against paths with and without a backslash; patterns have none (a
+// backslash in a PATTERN is outside the modelled fragment), so these go to the model as well
+var backslashPathRules = []string{"/*.pem\nlogs/\n", "/sub/*.pem\n!logs\n", "sub?id.pem\nlogs*\n", "/*/id.pem\n", "logs/\n!logs/notes.txt\n", "?lead\n/trail*/x*\n", "**/notes.txt\n!/logs/**\n"}
+var backslashPaths = []string{`sub\id.pem`, "sub/id.pem", "id.pem", `logs\notes.txt`, "logs/notes.txt", "logs/", `logs\`, `logs\/`, `\lead`, `x/\lead`, `trail\/x\y\z`, `sub/win\style.tf`, `sub\sub\id.pem`, `sub\sub/id.pem`, `.git\config`, `.terraform\modules\x`}
 
 // lines that are (nearly) nothing but syntax: every normalisation step of readRules sees an
 // empty or one-character remainder on one of them (seed C19-b: a lone "/")
@@ -234,7 +243,7 @@ var bigRulePaths = []string{"secret.auto.tfvars", "private/key.pem", "private/",
 
 func init() {
 	lanes["ignore"] = func(cfg *Config, rep *Report) {
-		rep.Rule = "rule files of 0..4 lines from a pattern grammar (23 atoms incl. *, ?, **, regexp metacharacters, non-ASCII, spaces) x anchoring x trailing slash x negation, with comments, blank, whitespace-only and '!' lines, CRLF; each against 12 paths of depth 1..5 over 22 segments (incl. newline, metacharacters), optional trailing slash; plus three generated rule files judged by the segment-wise matcher only (two of about 1 MiB of short lines with the rules that matter at the end, one with a 70 KiB comment line); non-trivial = rule file has a negation, a '**', or a metacharacter atom; distinct by (rule file, paths)"
+		rep.Rule = "rule files of 0..4 lines from a pattern grammar (23 atoms incl. *, ?, **, regexp metacharacters, non-ASCII, spaces) x anchoring x trailing slash x negation, with comments, blank, whitespace-only and '!' lines, CRLF; each against 12 paths of depth 1..5 over 28 segments (incl. newline, metacharacters, backslashes: ordinary characters of a path), optional trailing slash; seven rule files whose verdict depends on segment boundaries against 16 paths with and without backslashes; plus three generated rule files judged by the segment-wise matcher only (two of about 1 MiB of short lines with the rules that matter at the end, one with a 70 KiB comment line); non-trivial = rule file has a negation, a '**', or a metacharacter atom; distinct by (rule file, paths)"
 		r := NewRng(cfg.Seed)
 		var reqs, impl []string
 		var human []interface{}
@@ -384,6 +393,9 @@ func init() {
 		for _, g := range bigRuleGens {
 			g := g
 			runOne(expandFill(g.Kind, g.Bytes, g.Text), bigRulePaths, false, &g)
+		}
+		for _, rules := range backslashPathRules {
+			runOne(rules, backslashPaths, false, nil)
 		}
 		for i := 0; i < cfg.N; i++ {
 			content := genRuleFile(r)
